@@ -93,7 +93,8 @@ def cases(draw, tier):
         pick += ["u%d" % i for i in range(n - len(pick))]
         spec[key] = sorted(pick, reverse=draw(st.booleans()))
         spec["history"] = []
-    return {"table": spec, "op": op}
+    return {"table": spec, "op": op,
+            "positional": draw(st.sampled_from([False, False, True]))}
 
 
 def strategy(tier):
@@ -179,7 +180,8 @@ def check(case, rec):
         ids = ref.ids(axis)
         p = ops.perm_from_key(len(ids), op["key"])
         order = [ids[i] for i in p]
-        r = t.sort_order(order, axis=axis)
+        r = t.sort_order(order, axis) if case.get("positional") else \
+            t.sort_order(order, axis=axis)
         after = observe.snapshot(r)
         if (after["obs"] if axis == "observation" else after["samp"]) != order:
             raise Violation("order", "sort_order(%r) gave %r" % (
@@ -210,7 +212,8 @@ def check(case, rec):
             r = t.sort(axis=axis)
         else:
             order = list(f(list(ids)))
-            r = t.sort(sort_f=f, axis=axis)
+            r = t.sort(f, axis) if case.get("positional") else \
+                t.sort(sort_f=f, axis=axis)
         after = observe.snapshot(r)
         got = after["obs"] if axis == "observation" else after["samp"]
         if got != order:
@@ -349,7 +352,8 @@ def _align(case, op, t, before, ref, rec):
         raise Violation("align-not-refused", "align_to(axis=%r) with "
                         "same_o=%r same_s=%r did not raise DisjointIDError" %
                         (axis, can_o, can_s))
-    r = t.align_to(other, axis=axis)
+    r = t.align_to(other, axis) if case.get("positional") else \
+        t.align_to(other, axis=axis)
     after = observe.snapshot(r)
     al_o = axis in ("observation", "both") or (axis == "detect" and can_o)
     al_s = axis in ("sample", "both") or (axis == "detect" and can_s)
@@ -426,8 +430,11 @@ def _update_ids(case, op, t, before, ref, rec):
                         "inplace=%r) on %r did not raise TableException" %
                         (id_map, strict, inplace, ids))
     try:
-        r = t.update_ids(dict(id_map), axis=axis, strict=strict,
-                         inplace=inplace)
+        if case.get("positional"):
+            r = t.update_ids(dict(id_map), axis, strict, inplace)
+        else:
+            r = t.update_ids(dict(id_map), axis=axis, strict=strict,
+                             inplace=inplace)
     except TableException:
         if style != "blank":
             raise
